@@ -704,12 +704,20 @@ impl Resolution<'_> {
                 first,
                 second,
                 source,
-            } => Error::InstantiationArgMergeFailure {
-                name: import,
-                span: self.instantiation_spans[&second],
-                instantiation: self.instantiation_spans[&first],
-                source,
-            },
+            } => {
+                // Either side of the conflict may be an explicit import
+                let span = |node| {
+                    self.instantiation_spans
+                        .get(&node)
+                        .unwrap_or_else(|| &self.import_spans[&node])
+                };
+                Error::InstantiationArgMergeFailure {
+                    name: import,
+                    span: *span(second),
+                    instantiation: *span(first),
+                    source,
+                }
+            }
         })
     }
 
